@@ -130,6 +130,16 @@ def canonObjs : List Obj → Option (Bool × List Obj)
     | some (s, l), some (s', l') => some (xor s s', l ++ l')
     | _, _ => none
 
+/-- `δ² = δ` (sympy's `KroneckerDelta._eval_power`): drop a delta that is followed by an identical one -/
+def Obj.isDelta : Obj → Bool
+  | .delta _ _ => true
+  | _ => false
+
+def dedupDeltas : List Obj → List Obj
+  | [] => []
+  | o :: rest =>
+    if o.isDelta && rest.head? == some o then dedupDeltas rest else o :: dedupDeltas rest
+
 def sortIdx (l : List Idx) : List Idx := l.mergeSort (fun a b => Idx.le a b)
 
 /-- normal form of a term: `none` = the term is zero -/
@@ -138,7 +148,7 @@ def normTerm (t : Term) : Option Term :=
   | none => none
   | some (s, os) =>
     some { coef := if s then -t.coef else t.coef,
-           objs := os.mergeSort (fun a b => codeLe a.code b.code),
+           objs := dedupDeltas (os.mergeSort (fun a b => codeLe a.code b.code)),
            contr := sortIdx t.contr }
 
 def Term.code (t : Term) : List Nat :=
